@@ -26,12 +26,17 @@ package source
 //@   ensures[C20] len(result) == 0 || len(key) + len(result) <= 4096
 
 // reader side: mandatory labels, target digest, and the URL label consulted for the i-th listed digest is urls.<i>
+//@ func strings.Split
+//@   trusted
+//@   ensures len(result) >= 1
 //@ func FromDefaultLabels$1
 //@   props C20
 //@   ensures[C20] !(targetRefLabel in labels) ==> err != nil
 //@   ensures[C20] !(targetDigestLabel in labels) ==> err != nil
 //@   ensures[C20] err == nil ==> len(result0) == 1 && result0[0].Target.Digest == dparse(labels[targetDigestLabel])
 //@   assert[C20] after "if urls, ok := labels[targetImageURLsLabelPrefix" : ok ==> urls == labels[targetImageURLsLabelPrefix + sprintf("%d", rangeidx)]
+// a layer without URLs is reconstructed without URLs (an empty label value is not a list with one empty URL)
+//@   ensures[C20] err == nil && (!(targetURLsLabel in labels) || labels[targetURLsLabel] == "") ==> len(result0[0].Target.URLs) == 0
 
 // writer side: the layers label stays within the validated size, URL labels are keyed by the position in that label
 //@ func AppendDefaultLabelsHandlerWrapper$1$1
